@@ -2597,6 +2597,76 @@ v("C20", "helper-arm-not-done", "inprocgrpc/in_process.go",
   "	if ctx == nil {\n		return nil\n	}\n	return ctx.Done()\n}", "	if ctx == nil {\n		return closedChan\n	}\n	return ctx.Done()\n}\n\nvar closedChan = func() chan struct{} { c := make(chan struct{}); close(c); return c }()", "R2", "send-select",
   "after refactoring A2-r4 (doneOrNil helper): without a peer context the helper answers with a closed channel, so the send gives up at once", patch="refactors/A2-r4/patch.diff")
 
+# ------------------------------------------------------------------ configuration plumbing (session 2)
+# functions that no rule was anchored in: option setters, accessors, the deprecated alias, ServeHTTP, isNil
+v("C04", "server-stream-context-accessor", "inprocgrpc/in_process.go",
+  "func (s *inProcessServerStream) Context() context.Context {\n\treturn s.ctx\n}", "func (s *inProcessServerStream) Context() context.Context {\n\treturn context.TODO()\n}", "R3", "Context-accessor",
+  "the handler obtains another context than the one derived for the call")
+v("C10", "http-server-stream-context-accessor", "httpgrpc/server.go",
+  "func (s *serverStream) Context() context.Context {\n\treturn s.ctx\n}", "func (s *serverStream) Context() context.Context {\n\treturn s.r.Context()\n}", "R6", "Context-accessor",
+  "the HTTP stream handler gets the raw request context: no metadata, no deadline from the header")
+v("C10", "transport-stream-method-accessor", "internal/transport_stream.go",
+  "func (sts *ServerTransportStream) Method() string {\n\treturn sts.Name\n}", "func (sts *ServerTransportStream) Method() string {\n\treturn \"\"\n}", "R7", "Method-accessor",
+  "grpc.Method(ctx) reports nothing inside a streaming handler")
+v("C17", "deprecated-alias-drops-stream-interceptor", "intercept.go",
+  "\treturn InterceptClientConn(ch, unaryInt, streamInt)\n}", "\treturn InterceptClientConn(ch, unaryInt, nil)\n}", "R3", "alias-forwards",
+  "callers of the deprecated InterceptChannel lose their stream interceptor")
+v("C17", "silent-alias-through-local", "intercept.go",
+  "\treturn InterceptClientConn(ch, unaryInt, streamInt)\n}", "\twrapped := InterceptClientConn(ch, unaryInt, streamInt)\n\treturn wrapped\n}", silent=True,
+  why="behaviour-preserving: the alias returns the result through a local")
+v("C16", "inproc-stream-interceptor-setter-noop", "inprocgrpc/in_process.go",
+  "\tc.streamInterceptor = interceptor\n\treturn c", "\treturn c", "R7", "reachable",
+  "WithServerStreamInterceptor forgets to store: the configured interceptor never runs")
+v("C16", "inproc-unary-interceptor-setter-copy", "inprocgrpc/in_process.go",
+  "\tc.unaryInterceptor = interceptor\n\treturn c", "\tc2 := *c\n\tc2.unaryInterceptor = interceptor\n\treturn &c2", "R7", "setter",
+  "the setter configures a copy: services registered on the original channel are not intercepted (and the copy shares the handler map)")
+v("C16", "http-stream-interceptor-option-noop", "httpgrpc/server.go",
+  "\t\ts.streamInt = interceptor\n", "\t\t_ = interceptor\n", "R7", "reachable",
+  "the HTTP server option for stream interceptors stores nothing")
+v("C16", "handler-option-applied-to-copy", "httpgrpc/server.go",
+  "func (ho HandlerOption) apply(s *Server) {\n\tho(&s.opts)\n}", "func (ho HandlerOption) apply(s *Server) {\n\to := s.opts\n\tho(&o)\n}", "R7", "apply-step",
+  "handler options given to NewServer configure a copy of the option struct")
+v("C16", "silent-setter-named-receiver-var", "inprocgrpc/in_process.go",
+  "\tc.unaryInterceptor = interceptor\n\treturn c", "\tch := c\n\tch.unaryInterceptor = interceptor\n\treturn ch", silent=True,
+  why="behaviour-preserving: the receiver through a local alias")
+v("C06", "cloner-setter-keeps-first", "inprocgrpc/in_process.go",
+  "\tc.cloner = cloner\n\treturn c", "\tif c.cloner == nil {\n\t\tc.cloner = cloner\n\t}\n\treturn c", "R10", "setter",
+  "a second WithCloner is silently ignored: the channel keeps copying with the first cloner")
+v("C12", "base-path-option-rewrites", "httpgrpc/server.go",
+  "\t\ts.basePath = path\n", "\t\ts.basePath = path + \"/\"\n", "R8", "reachable",
+  "the base path stored is not the one configured")
+v("C12", "default-base-path-after-options", "httpgrpc/server.go",
+  "\ts.basePath = \"/\"\n\ts.handlers = grpchan.HandlerMap{}\n\tfor _, o := range opts {\n\t\to.apply(&s)\n\t}\n", "\ts.handlers = grpchan.HandlerMap{}\n\tfor _, o := range opts {\n\t\to.apply(&s)\n\t}\n\ts.basePath = \"/\"\n", "R8", "default-before-options",
+  "the default base path overwrites the configured one")
+v("C12", "serve-http-answers-options-itself", "httpgrpc/server.go",
+  "\ts.mux.ServeHTTP(w, r)\n}", "\tif r.Method == http.MethodOptions {\n\t\tw.WriteHeader(http.StatusNoContent)\n\t\treturn\n\t}\n\ts.mux.ServeHTTP(w, r)\n}", "R8", "delegates",
+  "OPTIONS on a method URL is answered 204 instead of 405")
+v("C12", "new-server-skips-first-option", "httpgrpc/server.go",
+  "\tfor _, o := range opts {\n\t\to.apply(&s)\n\t}\n", "\tfor i := 1; i < len(opts); i++ {\n\t\topts[i].apply(&s)\n\t}\n", "R8", "options-applied",
+  "the first server option is ignored")
+v("C14", "error-renderer-option-keeps-first", "httpgrpc/server.go",
+  "\t\th.errFunc = errFunc\n", "\t\tif h.errFunc == nil {\n\t\t\th.errFunc = errFunc\n\t\t}\n", "R7", "setter",
+  "a later ErrorRenderer option is ignored")
+v("C14", "handle-services-options-to-other-object", "httpgrpc/server.go",
+  "\t\t\th := handleMethod(svr, desc.ServiceName, &md, unaryInt, &hOpts)\n\t\t\tmux(", "\t\t\th := handleMethod(svr, desc.ServiceName, &md, unaryInt, &handlerOpts{})\n\t\t\tmux(", "R7", "options-applied",
+  "HandleServices applies the options to one object and hands the unary handlers another: the custom renderer is never used")
+v("C14", "handle-method-only-first-option", "httpgrpc/server.go",
+  "\tvar hOpts handlerOpts\n\tfor _, opt := range opts {\n\t\topt(&hOpts)\n\t}\n\treturn handleMethod(", "\tvar hOpts handlerOpts\n\tfor _, opt := range opts {\n\t\topt(&hOpts)\n\t\tbreak\n\t}\n\treturn handleMethod(", "R7", "options-applied",
+  "only the first handler option is applied")
+v("C14", "silent-options-index-loop", "httpgrpc/server.go",
+  "\tvar hOpts handlerOpts\n\tfor _, opt := range opts {\n\t\topt(&hOpts)\n\t}\n\treturn handleMethod(", "\tvar hOpts handlerOpts\n\tfor i := 0; i < len(opts); i++ {\n\t\topts[i](&hOpts)\n\t}\n\treturn handleMethod(", silent=True,
+  why="behaviour-preserving: the option loop written with an index")
+v("C08", "nil-predicate-wrong-kind", "inprocgrpc/in_process.go",
+  "\treturn rv.Kind() == reflect.Ptr && rv.IsNil()", "\treturn rv.Kind() == reflect.Interface && rv.IsNil()", "R2", "nil-predicate",
+  "a typed nil pointer from a generated handler is no longer recognised as 'no response'")
+v("C08", "nil-predicate-only-untyped", "inprocgrpc/in_process.go",
+  "\trv := reflect.ValueOf(m)\n\treturn rv.Kind() == reflect.Ptr && rv.IsNil()", "\treturn false", "R2", "nil-predicate",
+  "only the untyped nil counts as 'no response'")
+v("C08", "silent-nil-predicate-switch", "inprocgrpc/in_process.go",
+  "\trv := reflect.ValueOf(m)\n\treturn rv.Kind() == reflect.Ptr && rv.IsNil()", "\trv := reflect.ValueOf(m)\n\tif rv.Kind() == reflect.Ptr {\n\t\treturn rv.IsNil()\n\t}\n\treturn false", silent=True,
+  why="behaviour-preserving: the conjunction written as an if")
+
+
 
 def main():
     if os.path.isdir(OUT):
